@@ -325,6 +325,26 @@ def _redundant_guard_pass(fn) -> bool:
     return changed
 
 
+def _nested_if_pass(fn) -> bool:
+    """`if A: if B: S` (neither with an else, nothing else under A) is `if A and B: S` - same evaluation order, same
+    short circuit."""
+    changed = False
+    again = True
+    while again:
+        again = False
+        for node in ast.walk(fn):
+            if isinstance(node, ast.If) and not node.orelse and len(node.body) == 1 and isinstance(node.body[0], ast.If) and not node.body[0].orelse:
+                inner = node.body[0]
+                left = list(node.test.values) if isinstance(node.test, ast.BoolOp) and isinstance(node.test.op, ast.And) else [node.test]
+                right = list(inner.test.values) if isinstance(inner.test, ast.BoolOp) and isinstance(inner.test.op, ast.And) else [inner.test]
+                node.test = ast.copy_location(ast.BoolOp(op=ast.And(), values=left + right), node.test)
+                node.body = inner.body
+                changed = again = True
+    if changed:
+        ast.fix_missing_locations(fn)
+    return changed
+
+
 def _fstring_concat_pass(fn) -> bool:
     """`f"a{x}" + f"b{y}"` (or a plain text literal on either side) is the one f-string `f"a{x}b{y}"`."""
     changed = [False]
@@ -685,6 +705,7 @@ def normalise(repo, finfo, keep=(), helpers=True, aliases=True, comps=True, ifex
     _allany_pass(fn)
     _quantifier_branch_pass(fn)
     _bool_argument_pass(fn)
+    _nested_if_pass(fn)
     _fstring_concat_pass(fn)
     _redundant_guard_pass(fn)
     _unroll_pass(fn)
